@@ -15,7 +15,8 @@ CFG = dict(
     level_text="Coq theorems (unbounded: every deterministic machine, every graph, breakpoint set, request list and fuel) about an executable model of the debug loop with code-address node tracking (Y) against the plain loop (G): same state/outcome/operations, soundness of break events, framing by the terminate event (full); completeness of break events under an exactness side condition (partial) and refuted on witnesses that are replayed on the implementation. Y is tied to the source on every run by predicting, inside Coq, the complete event stream of every generated debug session from the CFG dumped from the implementation and the true operation sequence of an instrumented plain run.",
     level_note="Trusted: Coq kernel + vm_compute, no axioms; harness; verif-tag exports (dump, instrumentation). Goroutines, Interrupt (asynchronous pause) and cancellation by context are outside the model; sessions are driven synchronously (one request per stop).",
     technique="Coq proof by induction on fuel over an abstract CFG machine + model/implementation correspondence of whole debug sessions evaluated in Coq",
-    assumptions=["several debug sessions on one interpreter (Debug called again on the same compiled program) are modelled as independent sessions: model Y predicts each session of a chain from a fresh d_init, which is what the correspondence checks (chains of three sessions with stops, the last resume being continue / step-into / step-over in a seeded order; every session requests a line and a function so that SetBreakpoints resets the flags of the session before; flags left over by an earlier session when a later one makes no request of that kind are not modelled or exercised)",
+    assumptions=["callee kinds are a generator dimension, not a model extension: methods with named, pointer, unnamed and blank receivers (called directly, through an interface, as method values) and function literals evaluated on the root frame (package-level literal, composite literal of literals) run through the same replay machine; model Y predicts their sessions' events, flags and output like any other call; the frame names and scopes that enterCall records (DebugFrame.Name, Variables) are not compared",
+                 "several debug sessions on one interpreter (Debug called again on the same compiled program) are modelled as independent sessions: model Y predicts each session of a chain from a fresh d_init, which is what the correspondence checks (chains of three sessions with stops, the last resume being continue / step-into / step-over in a seeded order; every session requests a line and a function so that SetBreakpoints resets the flags of the session before; flags left over by an earlier session when a later one makes no request of that kind are not modelled or exercised)",
                  "the debugged program runs the cancellable variants of the channel operations (ExecuteWithContext sets cancelChan), plain execution the blocking ones: the behaviour theorem is applied to the pair under the side condition variants_agree (C19_same_behaviour_variants_partial), which the correspondence checks on every session (instrumented Execute run vs instrumented ExecuteWithContext run vs debug session; the reference is a true Eval)",
                  "two-goroutine programs (unbuffered hand-offs joined by a sync.WaitGroup) are outside the model: for them only output, result and outcome are compared with the plain run; goroutines started from function literals share debug routine 0 with main, so those programs are only run free",
                  "the model covers one goroutine; Interrupt and context cancellation are not exercised",
